@@ -2573,6 +2573,13 @@ class Interp:
                 and f.attr in self.OTHER_MUTATORS:
             yield from self._container_mutation(node, f.value.id, f.attr, st)
             return
+        if isinstance(f, ast.Attribute) and isinstance(f.value, ast.Subscript) \
+                and isinstance(f.value.value, ast.Name) \
+                and isinstance(st.env.get(f.value.value.id), (Tup, DictV)) \
+                and f.attr in self.OTHER_MUTATORS and not node.keywords \
+                and not any(isinstance(a, ast.Starred) for a in node.args):
+            yield from self._nested_mutation(node, f.value.value.id, f.value.slice, f.attr, st)
+            return
         for f, s in self.ev(node.func, st):
             if s.raised:
                 yield None, s
@@ -2587,6 +2594,53 @@ class Interp:
                         continue
                     kwargs = self._kwargs_of(node, kvals)
                     yield from self.do_call(f, args, kwargs, s3, node)
+
+    def _nested_mutation(self, node, name, index_node, meth, st):
+        """`table[k].append(x)` and the like on a container held in a local variable: the inner
+        container is updated in place, so the outer value changes too.  Exact for a constant
+        position holding a known inner container, otherwise the variable is forgotten."""
+        for idx, s in self.ev(index_node, st):
+            if s.raised:
+                yield None, s
+                continue
+            for args, s2 in self.ev_seq(list(node.args), s):
+                if s2.raised:
+                    yield None, s2
+                    continue
+                outer = s2.env[name]
+                idx_ = num_of(idx)
+                new_outer, res = None, NONE
+                if isinstance(outer, Tup) and isinstance(idx_, Sym) and idx_.is_const() and \
+                        idx_.const_value().denominator == 1 and \
+                        -len(outer.items) <= int(idx_.const_value()) < len(outer.items):
+                    k = int(idx_.const_value())
+                    inner = outer.items[k]
+                    if isinstance(inner, (Tup, DictV)):
+                        res, new_inner = self._mutated(inner, meth, args, {})
+                        if res == 'raise':
+                            yield None, s2.raising(new_inner)
+                            continue
+                        if new_inner is not None:
+                            items = list(outer.items)
+                            items[k] = new_inner
+                            new_outer = Tup(tuple(items), outer.kind)
+                elif isinstance(outer, DictV) and self._const_key(idx) and \
+                        all(self._const_key(kk) for kk, _ in outer.items):
+                    hit = [w for kk, w in outer.items if kk == idx]
+                    if hit and isinstance(hit[0], (Tup, DictV)):
+                        res, new_inner = self._mutated(hit[0], meth, args, {})
+                        if res == 'raise':
+                            yield None, s2.raising(new_inner)
+                            continue
+                        if new_inner is not None:
+                            new_outer = DictV(tuple((kk, new_inner if kk == idx else w)
+                                                    for kk, w in outer.items))
+                if new_outer is None:
+                    ty = 'dict' if isinstance(outer, DictV) else 'list'
+                    yield Opaque('m:' + meth, (outer, idx) + tuple(args)), s2.bind(
+                        name, Opaque('havoc:%s@%d' % (name, node.lineno), (), ty))
+                    continue
+                yield res, s2.bind(name, new_outer)
 
     def _ev_call_starred(self, node, st):
         """f(a, *seq, b): the starred value must be a sequence with known elements."""
